@@ -8,7 +8,7 @@ from .. import fields, paths
 from ..core import FUNC, call_attr, calls_in, const, dotted, is_const, kwarg, norm, slice_parts, text, walk_local
 
 EXPLANATION = [
-    'C10.accessor-contained: in Attribute.read_value/write_value every call of an application value accessor (and the await of its result) is inside try/except Exception that re-raises as ATT_Error, which is what makes "handlers only see ATT_Error" true for C10.once.',
+    'C10.accessor-contained: in Attribute.read_value/write_value every call of an application value accessor (and the await of its result) and of the adapters\' value codecs (decode_value of what the peer wrote, encode_value of what is read) is inside try/except Exception that re-raises as ATT_Error, which is what makes "handlers only see ATT_Error" true for C10.once.',
     'C10.mtu-agreement: after an MTU exchange the server adopts min(value it announced, client_rx_mtu) and the client min(value it sent, server_rx_mtu): the same number on both sides, which every budget rule below relies on.',
     'C10.classify: ATT_REQUESTS/ATT_RESPONSES are paired (response opcode = request + 1), commands carry bit 6 and are not requests; '
     'the dispatcher sends one Error Response for requests without a handler and nothing for other PDUs.',
@@ -469,7 +469,8 @@ def accessor_contained(ctx):
         if m is None:
             R.bad(rule, f'bumble.att.Attribute.{mname}', 'anchor missing')
             continue
-        calls = [c for c in calls_in(m) if dotted(c.func) in ('self.value.read', 'self.value.write')]
+        # accessors supplied by the application and the adapters' value codecs (decode of what the peer wrote, encode of what is read)
+        calls = [c for c in calls_in(m) if dotted(c.func) in ('self.value.read', 'self.value.write', 'self.decode_value', 'self.encode_value')]
         for i, c in enumerate(calls):
             n += 1
             ok = False
@@ -488,7 +489,7 @@ def accessor_contained(ctx):
                 prev, a = a, getattr(a, '_parent', None)
             R.check(ok, rule, f'bumble.att.Attribute.{mname} | accessor call #{i + 1}', 'inside try/except Exception that re-raises as ATT_Error',
                     'an exception other than ATT_Error raised by a value accessor escapes the permission gate: the task-wrapped request handler dies without answering (the client times out)', p.loc(c))
-    R.check(n >= 4, rule, 'bumble.att.Attribute | accessor calls', f'{n} accessor calls', f'only {n} accessor calls found')
+    R.check(n >= 6, rule, 'bumble.att.Attribute | accessor calls', f'{n} accessor / codec calls', f'only {n} accessor / codec calls found')
 
 
 RULES = [
